@@ -112,6 +112,10 @@ def engine_case(rng):
         q = "".join(text[i] for i in idx)          # a subsequence: fuzzy matches, exact mostly does not
     else:
         q = "".join(rng.choice("abcA") for _ in range(rng.randint(1, 3)))
+    if rng.random() < 0.08:
+        # the regex engine with an expression that does not compile (matches everything at (0,0)): the tuple it feeds must
+        # still carry the item's length
+        return "e;%s;regexbad;%s;%s|" % (opt(rtiebreak(rng)), enc(rng.choice(["(", "[a", "a(", "*a", "a{2"])), enc(text))
     return "e;%s;%s;%s;%s|" % (opt(rtiebreak(rng)), rng.choice(ENGINES), enc(q), enc(text))
 
 
